@@ -190,3 +190,22 @@ def cell_placeholder(loop, colvar, rowvar):
             self.generic_visit(n)
             return n
     return T().visit(new)
+
+
+def row_dispatch_tests(f):
+    """The membership tests that decide 'data row' in _parse: for every self.convert() call the outermost `key in X` known to hold on
+    the way to it (as an if-test, or as the negation of an earlier `if key not in X: ...; continue`)."""
+    from ..astutil import path_conditions
+    disp = []
+    seen = set()
+    for c in walk_local(f.node):
+        if isinstance(c, ast.Call) and isinstance(c.func, ast.Attribute) and c.func.attr == 'convert':
+            memb = []
+            for t_, pol in path_conditions(c):
+                for x in ([t_] if isinstance(t_, ast.Compare) else (t_.values if isinstance(t_, ast.BoolOp) and isinstance(t_.op, ast.And) and pol else [])):
+                    if isinstance(x, ast.Compare) and len(x.ops) == 1 and isinstance(x.ops[0], (ast.In, ast.NotIn)) and (isinstance(x.ops[0], ast.In) == pol):
+                        memb.append(x)
+            if memb and id(memb[-1]) not in seen:
+                seen.add(id(memb[-1]))
+                disp.append(memb[-1])
+    return disp
